@@ -14,6 +14,7 @@ import (
 	"strings"
 	"sync"
 	"sync/atomic"
+	"syscall"
 	"time"
 
 	"github.com/honeytrap/honeytrap/pushers"
@@ -39,8 +40,17 @@ type invocation struct {
 	err     string // read error other than EOF
 	pending int    // writes queued and not yet returned
 	werr    string // first write error / panic
-	wq      chan []byte
+	cerr    string // what the service's own Close returned / panicked with (recorded, not judged)
+	wq      chan wreq
 	seq     int64 // global order of Handle entry
+}
+
+// wreq is one thing the harness asks the service side of a connection to do, in order:
+// write b, or (close) close the connection on its own the way a service that is done
+// with its client does.
+type wreq struct {
+	b     []byte
+	close bool
 }
 
 // plan is what the harness wants the service to do on a connection it expects.
@@ -99,7 +109,7 @@ func (s *stubSvc) Handle(ctx context.Context, conn net.Conn) error {
 		network: conn.LocalAddr().Network(),
 		local:   conn.LocalAddr().String(),
 		remote:  conn.RemoteAddr().String(),
-		wq:      make(chan []byte, 256),
+		wq:      make(chan wreq, 256),
 	}
 	w := world
 	w.mu.Lock()
@@ -175,14 +185,35 @@ func (s *stubSvc) Handle(ctx context.Context, conn net.Conn) error {
 	if len(p.greeting) > 0 {
 		write(p.greeting)
 	}
+	// the service closes the connection itself (server.handle recovers a panic of a
+	// service, so does this)
+	closeConn := func() {
+		defer func() {
+			if r := recover(); r != nil {
+				w.mu.Lock()
+				inv.cerr = fmt.Sprintf("panic: %v", r)
+				w.mu.Unlock()
+			}
+		}()
+		if err := conn.Close(); err != nil {
+			w.mu.Lock()
+			inv.cerr = err.Error()
+			w.mu.Unlock()
+		}
+	}
 	quit := make(chan struct{})
 	wdone := make(chan struct{})
 	go func() {
 		defer close(wdone)
 		for {
 			select {
-			case b := <-inv.wq:
-				write(b)
+			case q := <-inv.wq:
+				if q.close {
+					// not counted in pending: nothing ever waits for it
+					closeConn()
+					continue
+				}
+				write(q.b)
 				w.mu.Lock()
 				inv.pending--
 				w.cond.Broadcast()
@@ -234,7 +265,16 @@ func (inv *invocation) queueWrite(b []byte) {
 	world.mu.Lock()
 	inv.pending++
 	world.mu.Unlock()
-	inv.wq <- b
+	inv.wq <- wreq{b: b}
+}
+
+// queueClose asks the service side of inv to close its connection (after the writes
+// requested earlier have returned).
+func (inv *invocation) queueClose() {
+	select {
+	case inv.wq <- wreq{close: true}:
+	default: // cannot happen with the harness's bounded number of outstanding requests
+	}
 }
 
 // waitFor blocks until cond() holds (called with world.mu held) or the timeout expires.
@@ -403,6 +443,7 @@ type scriptedAgent struct {
 	frames []frame
 	rerr   error
 	rdone  bool
+	paused bool // the agent does not take what the listener sends (a slow agent)
 
 	seg    string // frame3 | frame1 | chunks
 	chunks []int
@@ -411,9 +452,25 @@ type scriptedAgent struct {
 	werr   error
 }
 
-func dialAgent(f *fixture) (*scriptedAgent, error) {
+func dialAgent(f *fixture) (*scriptedAgent, error) { return dialAgentOpt(f, false) }
+
+// dialAgentOpt: a remote agent is an agent behind an ordinary network path - 1460-byte
+// segments and a modest receive buffer instead of loopback's 64 KiB segments and
+// megabytes of buffering - so that an agent that stops reading brings the listener's
+// sender to a halt after some hundred kilobytes rather than several megabytes.
+func dialAgentOpt(f *fixture, remote bool) (*scriptedAgent, error) {
 	cfg := libdisco.Config{HandshakePattern: libdisco.Noise_NK, RemoteKey: f.pub}
-	tc, err := net.DialTimeout("tcp", f.addr, 10*time.Second)
+	d := net.Dialer{Timeout: 10 * time.Second}
+	if remote {
+		d.Control = func(network, address string, rc syscall.RawConn) error {
+			return rc.Control(func(fd uintptr) {
+				// best effort: without them the session is the same, only the window costs more
+				syscall.SetsockoptInt(int(fd), syscall.IPPROTO_TCP, syscall.TCP_MAXSEG, 1460)
+				syscall.SetsockoptInt(int(fd), syscall.SOL_SOCKET, syscall.SO_RCVBUF, 65536)
+			})
+		}
+	}
+	tc, err := d.Dial("tcp", f.addr)
 	if err != nil {
 		return nil, err
 	}
@@ -436,9 +493,30 @@ func (s saneReader) Read(b []byte) (int, error) {
 	return n, nil
 }
 
+// gatedReader is the agent's receiving side: while the agent is paused it does not read
+// from the transport, so the listener's frames pile up in the socket buffers and then
+// in the listener.
+type gatedReader struct{ a *scriptedAgent }
+
+func (g gatedReader) Read(b []byte) (int, error) {
+	g.a.mu.Lock()
+	for g.a.paused {
+		g.a.cond.Wait()
+	}
+	g.a.mu.Unlock()
+	return saneReader{g.a.c}.Read(b)
+}
+
+func (a *scriptedAgent) setPaused(v bool) {
+	a.mu.Lock()
+	a.paused = v
+	a.cond.Broadcast()
+	a.mu.Unlock()
+}
+
 func (a *scriptedAgent) readLoop() {
 	for {
-		f, err := readFrame(saneReader{a.c})
+		f, err := readFrame(gatedReader{a})
 		a.mu.Lock()
 		if err != nil {
 			a.rerr = err
